@@ -64,8 +64,41 @@ class Sorter:
 
 
 class World:
+    """ghost state; kept in a per-path dict (`cur`) so that every explored path keeps its own final state"""
+
     def __init__(self):
-        self.cyc = None
+        object.__setattr__(self, "cur", {})
+
+    def __getattr__(self, k):          # cyc: ghost cyclic flags; rank: discovery stamp of a node; clock: next stamp
+        return self.cur[k]
+
+    def __setattr__(self, k, v):
+        self.cur[k] = v
+
+    def stamp(self, x):
+        self.rank = z3.Store(self.rank, x, self.clock)
+        self.clock = self.clock + 1
+
+
+size = z3.Function("type_size", Val, IntS)                  # structural size of a type term (ghost measure)
+
+
+def S(u):
+    """unwrapped type that the cut never applies to: a stdlib type that is not a subscripted generic"""
+    return z3.And(uw.uf("isstdlibtype", 1, BoolS)(u), z3.Not(uw.uf("issubscriptedgeneric", 1, BoolS)(u)))
+
+
+def in_s(x):
+    return S(unwrap_f(ntype(x)))
+
+
+def cert(rank, p, x):
+    """the edge p -> x descends the well-founded order  (class, measure):  non-stdlib nodes by discovery stamp, then
+    plain stdlib nodes by structural size; no edge leads from the second class back to the first"""
+    sp, sx = in_s(p), in_s(x)
+    return z3.Or(z3.And(sx, z3.Not(sp)),
+                 z3.And(sp, sx, size(unwrap_f(ntype(x))) < size(unwrap_f(ntype(p)))),
+                 z3.And(z3.Not(sp), z3.Not(sx), z3.Select(rank, x) > z3.Select(rank, p)))
 
 
 def skip_terms():
@@ -114,6 +147,8 @@ def make_interp(w: World):
         arr = z3.K(Val, z3.BoolVal(False))
         for x in items:
             arr = z3.Store(arr, to_val(x), z3.BoolVal(True))
+            if kind == "deque":
+                w.stamp(to_val(x))
         return MemSet(arr, kind)
     orig_display = I._display
 
@@ -151,6 +186,8 @@ def make_interp(w: World):
         if isinstance(recv, MemSet):
             if name in ("append", "add", "appendleft"):
                 recv.arr = z3.Store(recv.arr, to_val(args[0]), z3.BoolVal(True))
+                if recv.kind == "deque":
+                    w.stamp(to_val(args[0]))
                 return None
             if name in ("popleft", "pop"):
                 x = path.fresh("popped")
@@ -257,7 +294,7 @@ def constish(t):
     return t.sort() == Val and t.num_args() == 0 and t.decl().name().startswith(("popped", "sk_", "p!", "x!"))
 
 
-def outer_inv(S, stack, vis, cyc, root, domain_pre):
+def outer_inv(S, stack, vis, cyc, root, rank, clock):
     """S: Sorter state (processed, edge)."""
     proc, edge = S
 
@@ -276,6 +313,10 @@ def outer_inv(S, stack, vis, cyc, root, domain_pre):
         Q([Val, Val], lambda p, x: z3.Implies(z3.Select(z3.Select(edge, p), x), z3.Select(proc, p)), name="O5-edges-start-at-processed-nodes", pool=[constish, nodeish]),
         Q([Val], lambda x: z3.Implies(z3.Or(z3.Select(proc, x), z3.Select(stack, x)), z3.And(z3.Not(z3.Select(cyc, x)), z3.Not(is_fwd(ntype(x))))),
           name="O6-processed-and-queued-nodes-are-plain-types", pool=nodeish),
+        Q([Val], lambda x: z3.Implies(z3.Select(proc, x), z3.Select(vis, ntype(x))), name="O7-processed-nodes-are-visited", pool=nodeish),
+        Q([Val, Val], lambda p, x: z3.Implies(z3.And(z3.Select(z3.Select(edge, p), x), z3.Not(z3.Select(cyc, x))), cert(rank, p, x)),
+          name="A1-every-edge-descends-the-well-founded-order", pool=[constish, nodeish]),
+        Q([Val], lambda x: z3.Implies(z3.Or(z3.Select(proc, x), z3.Select(stack, x)), z3.Select(rank, x) < clock), name="C1-stamps-are-below-the-clock", pool=nodeish),
         z3.Or(z3.Select(proc, root), z3.Select(stack, root)),
     ]
 
@@ -295,10 +336,11 @@ def obligations(chk):
         env.set("stack", MemSet(path.fresh("stack", ArrB), "deque"))
         env.set("visited", MemSet(path.fresh("visited", ArrB), "set"))
         w.cyc = path.fresh("cyclic", ArrB)
+        w.rank, w.clock = path.fresh("rank", z3.ArraySort(Val, IntS)), path.fresh("clock", IntS)
 
     def inv_outer(I, path, env, k):
         S, stack, vis, cyc = get_state(env)
-        return outer_inv(S, stack, vis, cyc, box["root"], None)
+        return outer_inv(S, stack, vis, cyc, box["root"], w.rank, w.clock)
     I.loop_specs[(func, 0)] = LoopSpec("worklist", havoc_outer, inv_outer)
 
     def havoc_inner(I, path, env, k):
@@ -307,6 +349,7 @@ def obligations(chk):
         env.set("visited", MemSet(path.fresh("visited_i", ArrB), "set"))
         env.set("predecessors", MemSet(path.fresh("preds_i", ArrB), "list"))
         w.cyc = path.fresh("cyclic_i", ArrB)
+        w.rank, w.clock = path.fresh("rank_i", z3.ArraySort(Val, IntS)), path.fresh("clock_i", IntS)
 
     def inv_inner(I, path, env, k):
         S, stack, vis, cyc = get_state(env)
@@ -315,7 +358,7 @@ def obligations(chk):
         u = unwrap_f(ntype(parent))
         proc, edge = S
         # the outer invariant, with the popped parent "in flight" (neither queued nor processed yet)
-        inv = outer_inv(S, z3.Store(stack, parent, z3.BoolVal(True)), vis, cyc, box["root"], None)
+        inv = outer_inv(S, z3.Store(stack, parent, z3.BoolVal(True)), vis, cyc, box["root"], w.rank, w.clock)
 
         def member_done(i):
             c = child_type(u, i)
@@ -324,7 +367,7 @@ def obligations(chk):
         inv += [
             Q([IntS], member_done, name="I1-each-member-so-far-has-its-predecessor", pool=nodeish),
             Q([Val], lambda x: z3.Implies(z3.And(z3.Select(preds, x), z3.Not(z3.Select(cyc, x))), z3.Select(stack, x)), name="I2-plain-predecessors-are-queued", pool=nodeish),
-            z3.Not(z3.Select(proc, parent)) if False else z3.BoolVal(True),
+            Q([Val], lambda x, rank=w.rank: z3.Implies(z3.And(z3.Select(preds, x), z3.Not(z3.Select(cyc, x))), cert(rank, parent, x)), name="I3-new-plain-predecessors-descend-from-the-parent", pool=nodeish),
             z3.Not(z3.Select(cyc, parent)),
         ]
         return inv
@@ -333,32 +376,41 @@ def obligations(chk):
     def mk(I, path):
         for a in node_axioms() + or_axiom():
             path.assume(a)
+        state = {}
+        object.__setattr__(w, "cur", state)
         w.cyc = z3.K(Val, z3.BoolVal(False))
+        w.rank, w.clock = z3.K(Val, z3.IntVal(0)), z3.IntVal(1)
         t = path.fresh("t")
+        # L1 (assumed; checked over the type pool by the twin): the members of a plain stdlib type are plain stdlib types
+        # of smaller structural size (unions of plain stdlib types are the only such types that have members at all)
+        path.assume(Q([Val, IntS], lambda u, i: z3.Implies(z3.And(S(u), i >= 0, i < nchildren(u), z3.Not(skipped(child_type(u, i)))),
+                                                        z3.And(S(unwrap_f(child_type(u, i))), size(unwrap_f(child_type(u, i))) < size(u))),
+                      trigger=child_type, name="L1-members-of-plain-stdlib-types-are-smaller-plain-stdlib-types"))
         # domain: the annotation and its member annotations are types, not unresolved ForwardRef objects
         path.assume(Q([Val, IntS], lambda u, i: z3.Not(is_fwd(child_type(u, i))), trigger=child_type, name="members-are-types-not-references"))
         path.assume(z3.Not(is_fwd(t)))
         root = node(t, unwrap_f(t), VNone)
         box["root"] = root
-        return [SV(t)], {}, {"t": t, "root": root}
+        return [SV(t)], {}, {"t": t, "root": root, "state": state}
     results = I.run_function(func, mk, max_paths=400)
     n_exit = 0
     for pi, (path, out, obls, writes, cur) in enumerate(results):
         pid = f"p{pi}"
         for nm, pc, goal in obls:
-            chk.add(Ob(func, nm, pid, pc, goal))
+            chk.add(Ob(func, nm, pid, pc, goal, {"split": True}))      # one query per invariant conjunct, shared instantiation
         if out.kind == "end":
             continue
         hy = path.hyps
         names = ["exit::every-node-is-preceded-by-a-node-for-each-member", "exit::the-graph-is-closed (every plain predecessor is itself a node)",
-                 "exit::cyclic-nodes-are-exactly-pinned-references-to-revisited-types", "exit::the-root-is-a-node"]
+                 "exit::cyclic-nodes-are-exactly-pinned-references-to-revisited-types", "exit::the-root-is-a-node",
+                 "exit::every-edge-descends-a-well-founded-order (no CycleError)"]
         if out.kind != "ret" or not isinstance(out.value, Sorter):
             for nm in names + ["loop-preserve:worklist", "loop-preserve:members"]:
                 chk.add(Ob(func, nm, pid, hy, z3.BoolVal(False), {"outcome": out.kind, "why": str(out.value if out.kind != "raise" else out.exc.exc_cls)}))
             continue
         n_exit += 1
         g = out.value
-        proc, edge, cyc = g.processed, g.edge, w.cyc
+        proc, edge, cyc, rank_x = g.processed, g.edge, cur["state"]["cyc"], cur["state"]["rank"]
         root = cur["root"]
         p, x = path.fresh("p"), path.fresh("x")
         i = path.fresh("i", IntS)
@@ -372,6 +424,7 @@ def obligations(chk):
         chk.add(Ob(func, names[1], pid, hy + [z3.Select(row, x), z3.Not(z3.Select(cyc, x))], z3.Select(proc, x)))
         chk.add(Ob(func, names[2], pid, hy + [z3.Select(cyc, x)], z3.And(is_fwd(ntype(x)), z3.Not(z3.Select(proc, x)))))
         chk.add(Ob(func, names[3], pid, hy, z3.Select(proc, root)))
+        chk.add(Ob(func, names[4], pid, hy + [z3.Select(row, x)], z3.Or(z3.And(z3.Select(cyc, x), z3.Not(z3.Select(proc, x))), cert(rank_x, p, x))))
     if n_exit == 0:
         chk.errors.append("get_type_graph: no exit path explored")
     chk.add(Ob(func, "cover", "pre", results[0][0].hyps, z3.BoolVal(True), expect="sat"))
